@@ -6,6 +6,7 @@ from urllib.parse import urlparse, parse_qsl, urlencode, unquote
 import memserver as ms
 from memserver import Req, Client
 from authlib.oauth2 import OAuth2Error
+from authlib.oauth2.rfc9207 import IssuerParameter
 
 RULE = ("one case = (entry point GET-consent / POST-decision, response_type, client, redirect_uri, scope, state, nonce, prompt, response_mode, PKCE parameters, "
         "parameter placement/duplication, approve/deny) against the core in-memory provider with every authorization grant registered; "
@@ -15,8 +16,8 @@ ASSUMPTIONS = ["reference integrator (memserver.py): client.check_redirect_uri i
                "the Flask and Django integrations (request wrappers, response builders, configuration) are driven on the same store; their answer is compared with the core server's"]
 
 CLIENTS = [
-    {"id": "c1", "secret": "s1", "uris": ["https://good/cb", "https://good/cb2?keep=1&x=a+b", "https://good/cb3?legacy=&native&tenant=acme"], "response_types": ms.ALL_RESPONSE_TYPES,
-     "method": "client_secret_basic"},
+    {"id": "c1", "secret": "s1", "uris": ["https://good/cb", "https://good/cb2?keep=1&x=a+b", "https://good/cb3?legacy=&native&tenant=acme", "https://good/cb4?tenant=a&tenant=b&t=1"],
+     "response_types": ms.ALL_RESPONSE_TYPES, "method": "client_secret_basic"},
     {"id": "p1", "secret": "", "uris": ["https://pub/cb", "https://pub/other"], "response_types": ms.ALL_RESPONSE_TYPES, "method": "none"},
     {"id": "nouri", "secret": "", "uris": [], "response_types": ms.ALL_RESPONSE_TYPES, "method": "none"},
     {"id": "tokonly", "secret": "", "uris": ["https://tok/cb"], "response_types": ["token"], "method": "none"},
@@ -25,7 +26,7 @@ CLIENTS = [
 RTS = ["code", "token", "id_token", "id_token token", "token id_token", "code id_token", "id_token code", "code token", "code id_token token", "token code id_token",
        "bogus", "", None, "code code", "code\tid_token"]
 CIDS = ["c1", "p1", "nouri", "tokonly", "codeonly", "unknown", "", None]
-URIS = [None, "", "https://good/cb", "https://good/cb2?keep=1&x=a+b", "https://good/cb3?legacy=&native&tenant=acme", "https://good/cb3?tenant=acme", "https://pub/cb", "https://pub/other", "https://tok/cb", "https://code/cb",
+URIS = [None, "", "https://good/cb", "https://good/cb2?keep=1&x=a+b", "https://good/cb3?legacy=&native&tenant=acme", "https://good/cb3?tenant=acme", "https://good/cb4?tenant=a&tenant=b&t=1", "https://good/cb4?tenant=b&t=1", "https://pub/cb", "https://pub/other", "https://tok/cb", "https://code/cb",
         "https://evil/cb", "https://good/cbx", "https://good/cb/", "https://good/c", "https://good/cb?x=1", "https://good/CB", "good/cb", "https://good/cb#frag",
         "javascript:alert(1)", "https://good/cb2", "https://evil/cb?keep=1&x=a+b", "//good/cb"]
 SCOPES = [None, "", "openid", "openid profile", "profile", "profile openid", "zzz", "openid zzz"]
@@ -75,7 +76,9 @@ def cases(rng, tier):
                   "dup": rng.choice([None, None, None, None, "state", "redirect_uri", "client_id", "scope", "response_type", "code_challenge"]),
                   "require_nonce": rng.random() < 0.3,
                   # the request object still carries the resource owner from the consent step (request.user) while the decision is a denial
-                  "user_on_request": rng.random() < 0.3})
+                  "user_on_request": rng.random() < 0.3,
+                  # the RFC 9207 extension (iss response parameter) registered on every authorization grant
+                  "issuer": rng.random() < 0.3})
         k = repr(sorted(c.items(), key=lambda kv: kv[0]))
         if k in seen:
             continue
@@ -114,6 +117,12 @@ def build_request(c):
 
 
 FRAMEWORKS = [None, "flask", "django"]
+ISSUER = "https://as.example"
+
+
+class Issuer(IssuerParameter):
+    def get_issuer(self):
+        return ISSUER
 
 
 def server(c, framework=None):
@@ -122,10 +131,13 @@ def server(c, framework=None):
         store.clients[cl["id"]] = Client(cl["id"], cl["secret"], cl["uris"], "openid profile zzz", ms.ALL_GRANT_TYPES, cl["response_types"], cl["method"])
     for cl in CLIENTS:
         store.used_nonces.add((cl["id"], "used"))
+    if c.get("issuer"):
+        for i, (g, ext) in enumerate(srv._authorization_grants):
+            srv._authorization_grants[i] = (g, list(ext or []) + [Issuer()])
     return store, srv
 
 
-PROTO = {"code", "state", "error", "error_description", "access_token", "token_type", "expires_in", "scope", "id_token"}
+PROTO = {"iss", "code", "state", "error", "error_description", "access_token", "token_type", "expires_in", "scope", "id_token"}
 LABEL = {"code": "<code>", "access_token": "<token>", "id_token": "<id_token>"}
 
 
@@ -280,6 +292,10 @@ def oracle_one(c, out, fw):
         want_state = [c["state"]] if c["state"] else []
         if states != want_state:
             bad(f"state returned {states!r}, request had {c['state']!r}", kind="state-echo", mode=out["redirect"]["mode"])
+        if c.get("issuer") and c["op"] == "respond" and out["redirect"]["mode"] != "form_post":
+            iss = [val for k, val in parse_qsl(urlparse(out["_location"]).query, keep_blank_values=True) + parse_qsl(urlparse(out["_location"]).fragment, keep_blank_values=True) if k == "iss"]
+            if iss != [ISSUER]:
+                bad(f"RFC 9207 extension registered: redirect carries iss {iss!r}, expected exactly [{ISSUER!r}]", kind="iss-parameter")
         creds = [k for k, _ in out["_all"] if k in ("code", "access_token", "id_token")]
         if creds and (c["op"] == "consent" or not c["approve"]):
             bad(f"{creds} handed out without the resource owner's approval", kind="credential-without-approval")
